@@ -43,6 +43,59 @@ theorem C13_no_accept_after_signal {g a : Bool} {s : State} (h : Reachable g tru
   | false => simp
   | true => simp [(hg.conns cn hcn).late hb ho]
 
+/-- (b) as enabledness: in every reachable state of the repaired server in which the signal has
+fired, the accept step is disabled for every connection. -/
+theorem C13_accept_disabled_after_signal {g a : Bool} {s : State} (h : Reachable g true a s)
+    (hs : s.sigReady = true) (c : Nat) : step s (.loopAccept c) = none :=
+  accept_disabled (good_reachable h) (Or.inl ⟨(reachable_cfg h).2.1, hs⟩) c
+
+/-- (b) on traces: no execution of the repaired server contains an accept after the signal —
+whatever happens before, between and after. -/
+theorem C13_no_accept_after_signal_trace (g a : Bool) (pre mid post : List Label) (c : Nat) :
+    run (init g true a) (pre ++ [.sigFire] ++ mid ++ [.loopAccept c] ++ post) = none := by
+  cases hrun : run (init g true a) (pre ++ [.sigFire] ++ mid ++ [.loopAccept c] ++ post) with
+  | none => rfl
+  | some sEnd =>
+    exfalso
+    simp only [List.append_assoc] at hrun
+    rw [run_append] at hrun
+    cases h1 : run (init g true a) pre with
+    | none => simp [h1] at hrun
+    | some s1 =>
+      simp only [h1, Option.bind_some] at hrun
+      rw [run_append] at hrun
+      cases h2 : run s1 [.sigFire] with
+      | none => simp [h2] at hrun
+      | some s2 =>
+        simp only [h2, Option.bind_some] at hrun
+        rw [run_append] at hrun
+        cases h3 : run s2 mid with
+        | none => simp [h3] at hrun
+        | some s3 =>
+          simp only [h3, Option.bind_some] at hrun
+          have hr1 : Reachable g true a s1 := reachable_run .init h1
+          have hr2 : Reachable g true a s2 := reachable_run hr1 h2
+          have hr3 : Reachable g true a s3 := reachable_run hr2 h3
+          have hsig2 : s2.sigReady = true := by
+            simp only [run, step] at h2
+            split at h2
+            · rename_i s2' hs2
+              split at hs2
+              · cases hs2; cases h2; rfl
+              · cases hs2
+            · cases h2
+          have hsig3 := (run_mono h3).1 hsig2
+          have hdis := C13_accept_disabled_after_signal hr3 hsig3 c
+          rw [run_append] at hrun
+          simp [run, hdis] at hrun
+
+/-- What the code as found does guarantee: once the accept loop is over (it has SEEN the signal,
+or incoming ended), nothing is accepted any more — also without `biased;`. -/
+theorem C13_no_accept_once_loop_over {g b a : Bool} {s s' : State} {ls : List Label}
+    (h : Reachable g b a s) (hloop : s.loopRunning = false) (hrun : run s ls = some s') (c : Nat) :
+    step s' (.loopAccept c) = none :=
+  accept_disabled (good_reachable (reachable_run h hrun)) (Or.inr ((run_mono hrun).2 hloop)) c
+
 /-- (b) is FALSE of the accept loop as found (`select!` without `biased;`): the signal fires, a
 connection is offered afterwards, and the loop — both branches ready — takes the connection. -/
 theorem C13_no_accept_after_signal_fails :
@@ -232,26 +285,43 @@ example : ∃ s, Reachable true true false s ∧ s.resolved = true
     [.offer, .loopAccept 0, .hsDone 0, .issue 0 [[.hdr, .msg 0, .status 0]], .callStart 0 0,
      .sigFire, .loopSig, .afterLoop, .connSig 0, .final 0, .permit 0 0, .produce 0 0,
      .deliver 0 0, .deliver 0 0, .deliver 0 0, .connBreak 0, .connDropWatcher 0, .resolve]
-  have hreach : ∀ (ls : List Label) (s0 s : State), Reachable true true false s0 →
-      run s0 ls = some s → Reachable true true false s := by
-    intro ls
-    induction ls with
-    | nil => intro s0 s h0 hr; simp only [run, Option.some.injEq] at hr; exact hr ▸ h0
-    | cons l ls ih =>
-      intro s0 s h0 hr
-      simp only [run] at hr
-      split at hr
-      · rename_i s1 hs1; exact ih s1 s (.step l h0 hs1) hr
-      · cases hr
   cases hrun : run (init true true false) ls with
   | none => exact absurd hrun (by decide)
   | some s =>
-    refine ⟨s, hreach ls _ s .init hrun, ?_⟩
+    refine ⟨s, reachable_run .init hrun, ?_⟩
     have : (run (init true true false) ls).map
         (fun s => (s.resolved, (connViews s).any (·.accepted), (callViews s).any (·.started)))
         = some (true, true, true) := by decide
     rw [hrun] at this
     simp only [Option.map_some, Option.some.injEq, Prod.mk.injEq] at this
     exact this
+
+-- the hypotheses of the liveness theorems are satisfiable by a non-trivial reachable state: the
+-- signal fired with a streaming call in flight whose handler has one released phase
+example : ∃ s, Reachable true true false s ∧ ShutdownRequested s ∧ Unblocked s
+    ∧ s.resolved = false ∧ (callViews s).any (fun v => v.started && v.got != v.plan) = true := by
+  refine ⟨_, reachable_run (ls := [.offer, .loopAccept 0, .hsDone 0,
+      .issue 0 [[.hdr], [.msg 0], [.status 0]], .callStart 0 0, .permit 0 0, .sigFire]) .init rfl,
+    ?_, ?_, ?_, ?_⟩
+  · exact Or.inl rfl
+  · exact unblocked_of_bool (by decide)
+  · rfl
+  · decide
+
+-- … and those of `C13_resolve_enabled_once_all_closed`: loop over, one accepted connection, closed,
+-- its task not yet finished (it still holds its watcher), future not yet resolved
+example : ∃ s, Reachable true true false s ∧ s.loopRunning = false
+    ∧ allClosed (connViews s) = true ∧ (connViews s).any (·.accepted) = true
+    ∧ s.resolved = false ∧ receiverCount s = 1 := by
+  refine ⟨_, reachable_run (ls := [.offer, .loopAccept 0, .hsDone 0, .sigFire, .loopSig,
+      .afterLoop, .connSig 0, .final 0, .connBreak 0]) .init rfl, ?_, ?_, ?_, ?_, ?_⟩ <;> decide
+
+-- … and those of `C13_inflight_never_dropped`: the step is the connection task seeing the signal
+example : ∃ s s' cn k, Reachable true true false s ∧ step s (.connSig 0) = some s'
+    ∧ s.conns[0]? = some cn ∧ cn.calls[0]? = some k ∧ k.started = true ∧ k.cancelled = false
+    ∧ cn.peerGone = false := by
+  refine ⟨_, _, _, _, reachable_run (ls := [.offer, .loopAccept 0, .hsDone 0,
+      .issue 0 [[.hdr], [.status 0]], .callStart 0 0, .sigFire, .loopSig, .afterLoop]) .init rfl,
+    rfl, rfl, rfl, rfl, rfl, rfl⟩
 
 end C13
